@@ -2,7 +2,26 @@
    a span op is one ASpan, a tick / an ejection is the finite sequence of ADecide steps for the traces
    it takes, a reload is a stutter, a forgotten decision is AForget.  The theorems of
    Proofs/CollectorAbs.v are then transported to one worker and to the product of workers. *)
-From Refinery Require Import Lib.Base Model.Collector Proofs.CollectorAbs.
+From Refinery Require Import Lib.Base Model.Collector Proofs.CollectorAbs Gen.GenC01.
+
+(* What licenses [decide_one] (decision recorded, trace removed, and — if kept or dry run — ALL its spans
+   handed to the transmission, in one atomic model step): facts re-read from the Go source on every run.
+   Between makeDecision's Record and the transmission nothing can drop the trace:
+   - every decide site is `makeDecision; if err {continue}; send` (3 sites in the tick, 1 in the ejection);
+   - `send` returns early only for an already-sent trace or a dropped one (2 returns), and hands the trace
+     over with a plain blocking channel send — no select / default that could discard it when the queue is full;
+   - `sendTraces` ranges over the queue until it is CLOSED — no select on a done channel that could abandon
+     queued traces.
+   If any of these stops holding, this lemma (hence the refinement proof and every collector theorem) no longer
+   compiles and the check searches for a concrete loss. *)
+Definition send_path_lossless : bool :=
+  md_records_decision &&
+  Nat.eqb (length tick_decide_then_send_sites) 3 && eject_decide_then_send &&
+  send_ends_with_plain_channel_send && negb send_has_select_or_default &&
+  Nat.eqb (length send_returns) 2 && send_return_if_already_sent && send_return_if_dropped_and_not_dry &&
+  sendtraces_ranges_over_queue_until_closed && negb sendtraces_has_select_or_done.
+Lemma send_path_lossless_holds : send_path_lossless = true.
+Proof. vm_compute. reflexivity. Qed.
 
 Section Ref.
   Variable sampler : N -> list span -> bool.
@@ -140,6 +159,7 @@ Section Ref.
     absw (fst (step_total w o)) (arun x (trans w o)) /\
     a_out (arun x (trans w o)) = rev (map proj (snd (step_total w o))) ++ a_out x.
   Proof.
+    pose proof send_path_lossless_holds as Hsource.
     intros [Hb Hd]. destruct o as [now s|now ch|bytes ch|c|t]; unfold Collector.step_total; cbn [Collector.step trans].
     - (* span *)
       cbn [Collector.arun fold_left Collector.astep]. unfold Collector.step_span.
